@@ -486,12 +486,12 @@ Definition sort_asc (l : list str) : list str := rev (sort_desc l).
 Definition split_folder (ff : str) : option (str * str) :=
   let t := firstn 6 ff in
   match skipn 6 ff with
-  | 95%N :: rest =>
+  | c :: rest =>
       let lab := drop_nl rest in
-      if Nat.eqb (length t) 6 && all_in isdigit t
+      if N.eqb c 95 && Nat.eqb (length t) 6 && all_in isdigit t
          && negb (match lab with [] => true | _ => false end) && negb (memN 10 lab)
       then Some (t, lab) else None
-  | _ => None
+  | [] => None
   end.
 
 Definition folder_matches (fs : fsys) (dd : str) (label : option str) (ff : str) : option str :=
